@@ -5,8 +5,8 @@
 //! * [`set_kmeans_observer`] installs a thread-local observer that is called after
 //!   every tree-accelerated assignment step performed inside `KMeans::fit`.
 //! * [`set_tick_observer`] installs a thread-local observer that is called once per
-//!   iteration of the SMO loops of `SVC::fit` and `SVR::fit` (a logical clock for
-//!   bounded-liveness checks).
+//!   iteration of the SMO loops of `SVC::fit` and `SVR::fit` with a digest of the optimizer
+//!   state (a logical clock and a cycle detector for liveness checks).
 
 use std::cell::RefCell;
 
@@ -83,21 +83,41 @@ pub fn bbd_clustering<T: RealNumber, M: Matrix<T>>(
     (sums, counts, membership, dist)
 }
 
-type TickObserver = Box<dyn FnMut(&'static str)>;
+type TickObserver = Box<dyn FnMut(&'static str, u64)>;
 
 thread_local! {
     static TICK_OBS: RefCell<Option<TickObserver>> = RefCell::new(None);
 }
 
-/// Install (or, with `None`, remove) this thread's tick observer.
+/// Install (or, with `None`, remove) this thread's tick observer. It is called with the name of the
+/// loop site and a digest of the optimizer state at that point (two equal digests at the same site
+/// within one loop mean that the deterministic loop has revisited a state and will never exit).
 pub fn set_tick_observer(obs: Option<TickObserver>) {
     TICK_OBS.with(|o| *o.borrow_mut() = obs);
 }
 
-pub(crate) fn tick(site: &'static str) {
+/// `state` is only evaluated when an observer is installed.
+pub(crate) fn tick<F: FnOnce() -> u64>(site: &'static str, state: F) {
     TICK_OBS.with(|o| {
         if let Some(f) = o.borrow_mut().as_mut() {
-            f(site);
+            f(site, state());
         }
     });
+}
+
+/// Order-sensitive 64-bit digest of a sequence of words (state fingerprints for [`tick`]).
+pub(crate) fn digest_words<I: Iterator<Item = u64>>(words: I) -> u64 {
+    let mut h: u64 = 0xcbf2_9ce4_8422_2325;
+    for w in words {
+        h ^= w;
+        h = h.wrapping_mul(0x0000_0100_0000_01B3);
+        h ^= h >> 29;
+        h = h.wrapping_mul(0x9E37_79B9_7F4A_7C15);
+    }
+    h
+}
+
+/// Bits of a real number (widened to f64) for [`digest_words`].
+pub(crate) fn bits<T: RealNumber>(v: T) -> u64 {
+    v.to_f64().unwrap_or(f64::NAN).to_bits()
 }
